@@ -3,6 +3,7 @@ import ast
 
 from engine.index import norm, walk_own, Undecided
 from engine.cfg import cfg_of
+from engine.defuse import defuse_of
 from engine.cells import Explorer, Iv, Const, TOP
 from engine.embedded import struct_sites, fmt_fields, fmt_size, INT_RANGE
 from engine.fold import UNKNOWN
@@ -180,6 +181,20 @@ def r1(ctx):
         ps = [s for s in struct_sites(hdr, ctx.folder) if s.kind == "pack"]
         ok = len(ps) == 1 and fmt_fields(ps[0].fmt) == (">", ["H"]) and norm(ps[0].args[0]) == "self.type_id"
         ctx.check(ok, "C13.R1", hdr, "%s header = '>H' type_id" % cls, witness=[s.fmt for s in ps])
+        # what is written is that pack result, computed from the instance's own type_id in this call (a value remembered from
+        # an earlier call - on the class, the module or the instance - may belong to another class of the hierarchy)
+        wr = [c for c in calls_named(hdr, "write") if norm(c.func) == "%s.write" % hdr.params[1]]
+        okw = len(wr) == 1 and len(ps) == 1 and len(wr[0].args) == 1
+        if okw:
+            a0 = wr[0].args[0]
+            if a0 is not ps[0].call:
+                okw = False
+                if isinstance(a0, ast.Name):
+                    du = defuse_of(hdr)
+                    defs = du.reaching(a0.id, du.cfg.node_of(wr[0]).id)
+                    okw = bool(defs) and all(d[1] is ps[0].call for d in defs)
+        ctx.check(okw, "C13.R1", hdr, "%s.serialize_header writes pack('>H', self.type_id) computed in the same call" % cls,
+                  "the tag written is the type id of the object's own class", witness=[norm(c) for c in wr])
     dvf = ctx.fn("%s:deserialize_value" % M)
     us = [s for s in struct_sites(dvf, ctx.folder) if s.kind == "unpack"]
     rd = [c for c in calls_named(dvf, "read") if norm(c.func) == "%s.read" % dvf.params[0]]
